@@ -524,7 +524,12 @@ class Model:
                     out |= self.atoms(fn, a, seen, depth + 1)
                 return out
             g = self.fx.functions.get(n.get("calleeKey") or "")
-            if g is not None and g.body is not None and self.in_scope(g) and is_num_t(n.get("t")):
+            # helpers are looked into: functions of the writer files, and an untabled member of the same class
+            # as the calling function (a computation extracted into a private helper keeps its sources)
+            same_class_helper = (g is not None and g.cls is not None and fn.cls is not None
+                                 and stripped(g.cls) == stripped(fn.cls)
+                                 and stripped(g.qn) not in self.src and name not in self.src)
+            if g is not None and g.body is not None and (self.in_scope(g) or same_class_helper) and is_num_t(n.get("t")):
                 key = ("C", g.key)
                 if key not in seen:
                     seen.add(key)
